@@ -270,6 +270,7 @@ theorem gradient_svg_safe (g : Gradient) (id x1 y1 x2 y2 : List Char) (hty : g.t
   have hrun : run st0 (gradientToSVG g id (x1, y1, x2, y2)) =
       { st0 with rootSeen := true, rootDone := true,
                  evs := .close :: (stopEvsRev g.stops.length 0 g.stops ++ [.open (gradName g) (gradAttrs g id x1 y1 x2 y2)]) } := by
+    dsimp only at r1 r2 r3 r4
     rw [emit_eq g id x1 y1 x2 y2 hty, run_append, run_append, run_append, r1, r2, r3, r4]
     simp [st0]
   obtain ⟨c, cs, hcs, hcn⟩ : ∃ c cs, gradName g = c :: cs ∧ isNameStart c = true := by
@@ -278,7 +279,9 @@ theorem gradient_svg_safe (g : Gradient) (id x1 y1 x2 y2 : List Char) (hty : g.t
     · exact ⟨_, _, rfl, by decide⟩
   have hshape : ∃ rest, gradientToSVG g id (x1, y1, x2, y2) = '<' :: c :: rest := by
     rw [emit_eq g id x1 y1 x2 y2 hty, hcs]
-    exact ⟨_, by simp [renderOpenTag]⟩
+    refine ⟨cs ++ (renderAttrs (gradAttrs g id x1 y1 x2 y2) ++
+      '>' :: '\n' :: (stopsFrom escapeText g.stops.length 0 g.stops ++ renderCloseTag (c :: cs))), ?_⟩
+    simp [renderOpenTag]
   obtain ⟨rest, hr⟩ := hshape
   rw [hr] at hrun ⊢
   obtain ⟨w, e⟩ := doc_of_run c rest _ hcn hrun
@@ -292,5 +295,47 @@ theorem gradient_svg_safe (g : Gradient) (id x1 y1 x2 y2 : List Char) (hty : g.t
   · have hne : ("radial" == "linear") = false := by decide
     simp [h, hne, radN, idN]
     simpa using stopEvsOk_rev g.stops.length g.stops 0
+
+/-- every parsed gradient is linear or radial, so `gradient_svg_safe` applies to everything `ParseGradient` accepts -/
+theorem parseGradient_type (css : List Char) (g : Gradient) (h : parseGradient css = some g) :
+    g.type = "linear" ∨ g.type = "radial" := by
+  unfold parseGradient at h
+  simp only at h
+  split at h
+  · exact absurd h (by simp)
+  · rename_i ty params hm
+    have hty : ty = "linear" ∨ ty = "radial" := by
+      split at hm
+      · simp at hm; exact Or.inl hm.1.symm
+      · cases hr : matchKw radKw 0 (trimSpace css) with
+        | none => simp [hr] at hm
+        | some b => simp [hr] at hm; exact Or.inr hm.1.symm
+    split at h
+    · exact absurd h (by simp)
+    · split at h
+      · split at h
+        · exact absurd h (by simp)
+        · simp at h; rw [← h]; exact hty
+      · split at h
+        · split at h
+          · exact absurd h (by simp)
+          · simp at h; rw [← h]; exact hty
+        · simp at h; rw [← h]; exact hty
+
+/-- the witness of DESIGN §7: `fill: 'linear-gradient(red 0"><script>alert(1)</script><stop, blue)'` -/
+def cxGradCss : List Char := "linear-gradient(red 0\"><script>alert(1)</script><stop, blue)".toList
+
+def cxGrad : Gradient :=
+  ⟨"linear", [], [⟨"red".toList, "0\"><script>alert(1)</script><stop".toList⟩, ⟨"blue".toList, []⟩]⟩
+
+set_option maxRecDepth 8000 in
+theorem cxGrad_parsed : parseGradient cxGradCss = some cxGrad := by decide
+
+set_option maxRecDepth 8000 in
+/-- **counterexample (unfixed tree)**: the unescaped emitter turns the stop position into a `<script>` element -/
+theorem C30_cx_gradient_stop :
+    "script".toList ∈ elementNames
+      (events (gradientToSVGUnescaped cxGrad "grad-0".toList ("0%".toList, "0%".toList, "0%".toList, "100%".toList))) := by
+  decide
 
 end D2V.C30
